@@ -1,13 +1,13 @@
 \* Authenticity: every mutation class of the property (relabel to another device's slot / another key,
 \* either signature by somebody else, flipped value byte, reader, removed writer, pre-membership,
-\* unknown record, record known to one store only, negative and unrepresentable timestamps) with 2 valid (thorough: 3)
+\* unknown record, record known to one store only, negative and unrepresentable timestamps) with 3 valid
 \* values, in every batch (<= 2) position, order and repetition, on two stores with different ACL
-\* knowledge (s2's local account is a reader), a failing commit (thorough tier: also a failing heads-entry write).  No exchanges here
+\* knowledge (s2's local account is a reader), faults after the index update.  No exchanges here
 \* (KeyValue_mc_xauth.cfg).
 SPECIFICATION Spec
 CONSTANTS
   Stores <- S2
-  Universe <- U_auth_q
+  Universe <- U_auth
   KnowsUpTo <- KnowsMixed
   LocalAcc <- AccWR
   LocalDev <- Devs
@@ -16,7 +16,7 @@ CONSTANTS
   MaxBatch = 2
   ApplyBatch = 1
   Exchanges = FALSE
-  FaultPoints <- CommitOnly
+  FaultPoints <- LateFaults2
   FIX_LABEL = TRUE
   FIX_PERM = TRUE
   FIX_TS = TRUE
